@@ -124,6 +124,28 @@ def run(ctx, rep):
             sl = flow.backward_slice(CP, op_place(t["args"][1])) if op_place(t["args"][1]) else {"fields": set()}
             split.append("length" in sl["fields"] and "location" in sl["fields"])
     rep.check("C05.b", "cursor", split == [True], where=CP.loc(), what="the blob cursor consumes exactly blob.location.length bytes per indexed blob (split_to)")
+    # size and hash of the pack are verified before any byte of it is sliced or decrypted: a truncated or replaced pack
+    # is reported through the collector instead of tripping a slice bound
+    gate = {}
+    for sw in range(len(CP.blocks)):
+        t = CP.term(sw)
+        if t["k"] == "switch":
+            k = cond_kind(flow.expr_of(CP, t["discr"]))
+            if k in ("layer:PackSizeMismatch", "layer:PackHashMismatch"):
+                gate.setdefault(k[6:], []).append(sw)
+    users = [(bb, callee(t)) for bb, t in CP.calls() if "callee" in t and (re.search(r"bytes::Bytes::split_(to|off)$", callee(t)) or bb in dec)]
+    for var in ("PackSizeMismatch", "PackHashMismatch"):
+        sws = gate.get(var, [])
+        bad = [where(CP, bb) for bb, c in users if not any(C.dominates(CP, sw, bb) for sw in sws)]
+        # and the failing edge of the gate cannot reach a user
+        for sw in sws:
+            errb = err_var_blocks(var)
+            for x in CP.succ(sw):
+                if any(e in CP.reachable_from(x) for e in errb) and not all(e in CP.reachable_from(y) for y in CP.succ(sw) for e in errb):
+                    bad += [where(CP, bb) for bb, c in users if bb in CP.reachable_from(x)]
+        rep.check("C05.b", f"gate-before-slicing/{var}", bool(sws) and bool(users) and not bad, where=CP.loc(),
+                  what=f"check_pack: the {var} comparison dominates every split/decrypt of the pack bytes and its failing edge returns" if (sws and not bad) else
+                       f"check_pack slices or decrypts the pack bytes at {sorted(set(bad))} before/without the {var} comparison: a truncated or substituted pack trips a bound instead of being reported")
     # ---- C05.c -------------------------------------------------------------------------------------
     CR = prog.find1(r"^rustic_core::commands::check::check_repository$")
     # tree-walk error -> ErrorCheckingTrees
